@@ -99,6 +99,32 @@ func collectLits(n ast.Node) (ints []int64, sigs [][]byte) {
 				}
 			}
 		}
+		// []byte{0x.., ...} composites (typed, or elements of a [][]byte literal)
+		if cl, ok := x.(*ast.CompositeLit); ok && len(cl.Elts) > 0 {
+			var bs []byte
+			good := true
+			for _, el := range cl.Elts {
+				bl, ok := el.(*ast.BasicLit)
+				if !ok || (bl.Kind != token.INT && bl.Kind != token.CHAR) {
+					good = false
+					break
+				}
+				v, err := unquote(bl)
+				if err != nil {
+					good = false
+					break
+				}
+				iv := int64(v.(vInt))
+				if iv < 0 || iv > 255 {
+					good = false
+					break
+				}
+				bs = append(bs, byte(iv))
+			}
+			if good {
+				sigs = append(sigs, bs)
+			}
+		}
 		return true
 	})
 	sort.Slice(ints, func(i, j int) bool { return ints[i] < ints[j] })
